@@ -287,6 +287,7 @@ func (c *Ctx) tMarshal(t time.Time) {
 }
 
 func (c *Ctx) tParse(s string) {
+	rotateHostZone()
 	impl := safely(func() string {
 		var rt saml.RelaxedTime
 		if err := rt.UnmarshalText([]byte(s)); err != nil {
@@ -436,7 +437,7 @@ func (c *Ctx) randEntityDescriptor() saml.EntityDescriptor {
 			d.WantAssertionsSigned = &t
 		}
 		for j := 1 + c.rng.Intn(3); j > 0; j-- {
-			ep := saml.IndexedEndpoint{Binding: bindingsPool[c.rng.Intn(4)], Location: loc(), Index: c.rng.Intn(5)}
+			ep := saml.IndexedEndpoint{Binding: mdBindingsPool[c.rng.Intn(len(mdBindingsPool))], Location: loc(), Index: c.rng.Intn(5)}
 			if c.chance(0.3) {
 				x := c.chance(0.5)
 				ep.IsDefault = &x
@@ -444,7 +445,7 @@ func (c *Ctx) randEntityDescriptor() saml.EntityDescriptor {
 			d.AssertionConsumerServices = append(d.AssertionConsumerServices, ep)
 		}
 		for j := c.rng.Intn(2); j > 0; j-- {
-			d.SingleLogoutServices = append(d.SingleLogoutServices, saml.Endpoint{Binding: bindingsPool[c.rng.Intn(2)], Location: loc(), ResponseLocation: loc()})
+			d.SingleLogoutServices = append(d.SingleLogoutServices, saml.Endpoint{Binding: mdBindingsPool[c.rng.Intn(len(mdBindingsPool)-1)], Location: loc(), ResponseLocation: loc()})
 		}
 		if c.chance(0.3) {
 			d.NameIDFormats = []saml.NameIDFormat{saml.TransientNameIDFormat, saml.EmailAddressNameIDFormat}
@@ -461,7 +462,7 @@ func (c *Ctx) randEntityDescriptor() saml.EntityDescriptor {
 		d.ProtocolSupportEnumeration = "urn:oasis:names:tc:SAML:2.0:protocol"
 		d.KeyDescriptors = kds()
 		for j := 1 + c.rng.Intn(2); j > 0; j-- {
-			d.SingleSignOnServices = append(d.SingleSignOnServices, saml.Endpoint{Binding: bindingsPool[c.rng.Intn(2)], Location: loc()})
+			d.SingleSignOnServices = append(d.SingleSignOnServices, saml.Endpoint{Binding: mdBindingsPool[c.rng.Intn(len(mdBindingsPool)-1)], Location: loc()})
 		}
 		if c.chance(0.3) {
 			t := c.chance(0.5)
@@ -787,3 +788,7 @@ func (c *Ctx) genC15Metadata() {
 		c.metadataFixpoint("idp.Metadata()", *idp.Metadata(), true)
 	}
 }
+
+// every binding the package knows an http(s) location for (both SOAP bindings included), and — last, used for assertion consumer
+// services only, as before — one it does not know
+var mdBindingsPool = []string{saml.HTTPPostBinding, saml.HTTPRedirectBinding, saml.HTTPArtifactBinding, saml.SOAPBinding, saml.SOAPBindingV1, "urn:unknown:binding"}
